@@ -442,6 +442,14 @@ def corpus_sets():
             arg("level", "opt", "i16", long="amount", short=True, default=("s", "-3")),
             arg("in_file", doc="Trailing blank\n\n")]},
         {"variant": "OutFile", "name": None, "doc": "\n\nOnly after blanks.", "sub": None, "args": [arg("k", "flag", "bool", short=True, long="keep_it")]}]}})
+    # 8: defaults that do not convert (converted eagerly: the command rejects every line), next to a well-formed one
+    sets.append({"kind": "enum", "enum": {"title": None, "cmds": [
+        {"variant": "Pwm", "name": None, "doc": None, "sub": None, "args": [
+            arg("duty", "opt", "u8", long=True, short=True, default=("s", "256")),
+            arg("unit", ty="char", default=("s", "ab"))]},
+        {"variant": "Log", "name": None, "doc": None, "sub": None, "args": [
+            arg("target"), arg("lines", "opt", "u16", long=True, default=("s", "-1")), arg("depth", "opt", "u16", long=True, default=("v", ("i", 7)))]},
+        {"variant": "Fine", "name": None, "doc": None, "sub": None, "args": [arg("n", "opt", "i32", long=True, short=True, default=("s", "-12"))]}]}})
     return sets
 
 VARIANTS = ["Get", "GetLed", "GetAdc", "Set", "SetLed", "Go", "Status", "Stat", "Start", "Stop", "Helper", "Hello", "He", "Exit", "Led", "Adc", "A", "Ab", "Abc", "Xy"]
@@ -486,6 +494,10 @@ def rand_enum(rng, depth=0, used=None):
                     elif ty == "char": default = rng.choice([("s", "z"), ("v", ("c", "ж"))])
                     elif ty in INT_TYS: default = rng.choice([("s", "7"), ("s", "-0" if ty[0] == "i" else "+0"), ("v", ("i", int_range(ty)[0])), ("v", ("i", int_range(ty)[1])), ("d",)])
                     else: default = rng.choice([("s", "true"), ("v", ("b", True)), ("d",)])
+                if default is not None and default[0] == "s" and ty != "str" and rng.randrange(5) == 0:
+                    # a default_value string that does NOT convert to the field type: legal Rust, the generated constructor converts it on
+                    # every parse (`unwrap_or(from_arg(..)?)`), so every line for this command is rejected with that text
+                    default = ("s", {"u8": "256", "char": "ab", "bool": "maybe"}.get(ty, "1e3"))
                 valname = rng.choice([None, None, "VAL", "lvl"]) if kind != "flag" else None
                 args.append(arg(f, kind, ty, long=long_, short=short, optional=optional, default=default, valname=valname, doc=rng.choice([None, "Some arg", "Help text."])))
                 if short not in (None, True) and rng.randrange(3) == 0:
@@ -626,6 +638,34 @@ def rand_cmd_tokens(rng, e, depth=0):
         else:
             toks += rand_cmd_tokens(rng, c["sub"]["enum"], depth + 1)
     return toks
+
+def missing_arg_lines(rng, c, prefix=()):
+    """for every required argument of command c (declaration order): a line that supplies all required arguments except that one,
+    so that exactly it is reported as missing (by its usage name: value_name attribute, <> brackets, --long / -short prefix)"""
+    req = [a for a in c["args"] if a["kind"] != "flag" and not a["optional"] and not a.get("default")]
+    def give(a):
+        v = sample_value(rng, a["ty"], True)
+        if a["kind"] == "pos":
+            return [v]
+        return [("--" + arg_long(a)) if arg_long(a) else ("-" + arg_short(a)), v]
+    lines = []
+    for skip in req:
+        toks = list(prefix) + [cmd_name(c)]
+        for a in req:
+            if a is skip:
+                continue
+            if skip["kind"] == "pos" and a["kind"] == "pos" and req.index(a) > req.index(skip):
+                continue          # positionals fill in order: leave out the skipped one and every later one
+            toks += give(a)
+        lines.append(" ".join(q(t) for t in toks))
+    if c["sub"] is not None and not c["sub"]["optional"]:
+        toks = list(prefix) + [cmd_name(c)]
+        for a in req:
+            toks += give(a)
+        lines.append(" ".join(q(t) for t in toks))          # everything but the sub-command: <COMMAND> is missing
+        for sc in c["sub"]["enum"]["cmds"][:3]:
+            lines += missing_arg_lines(rng, sc, prefix=toks)
+    return lines
 
 def set_enums(s):
     return [s["enum"]] if s["kind"] == "enum" else [e for _, e in s["members"]]
